@@ -12,6 +12,7 @@ import (
 	"context"
 	"crypto/sha256"
 	"fmt"
+	"github.com/plgd-dev/go-coap/v3/net/responsewriter"
 	"hash/crc64"
 	"math/rand"
 	"sync"
@@ -50,6 +51,9 @@ type env struct {
 	sent   func() []ref.Msg
 	mid    atomic.Uint32
 	stray  atomic.Int64 // responses that reached the default handler
+	// strayMu/strayL: separate (CON/NON typed) responses that reached the connection's default handler
+	strayMu sync.Mutex
+	strayL  []string
 }
 
 func newEnv(kind string, blockwise bool, queue int) *env {
@@ -58,7 +62,15 @@ func newEnv(kind string, blockwise bool, queue int) *env {
 	switch kind {
 	case "udp":
 		s := sim.NewMemSession()
-		cc := sim.NewUDPConn(s, sim.UDPOpts{Blockwise: blockwise, SZX: 6, Mutate: func(cfg *udpclient.Config) {
+		cc := sim.NewUDPConn(s, sim.UDPOpts{Blockwise: blockwise, SZX: 6, Handler: func(w *responsewriter.ResponseWriter[*udpclient.Conn], r *pool.Message) {
+			if r.Code() >= codes.Created && (r.Type() == message.Confirmable || r.Type() == message.NonConfirmable) {
+				e.strayMu.Lock()
+				if len(e.strayL) < 50 {
+					e.strayL = append(e.strayL, fmt.Sprintf("type=%v mid=%d token=%x code=%v", r.Type(), r.MessageID(), r.Token(), r.Code()))
+				}
+				e.strayMu.Unlock()
+			}
+		}, Mutate: func(cfg *udpclient.Config) {
 			cfg.ReceivedMessageQueueSize = queue
 			cfg.GetMID = func() int32 { return int32((40000 + 0xffff/2) & 0xffff) }
 			h := cfg.Handler
@@ -319,6 +331,15 @@ func runCase(rec *vr.Rec, c ccase, rnd *rand.Rand) {
 	close(stop)
 	pwg.Wait()
 	rec.Count("calls_checked", okN.Load())
+	// every request was answered and every call returned: a separate response that reached the connection's default
+	// handler is a copy of a response that was already delivered to its call - processed a second time instead of being
+	// recognised as a duplicate by its message ID
+	time.Sleep(200 * time.Microsecond)
+	e.strayMu.Lock()
+	if len(e.strayL) > 0 && errN.Load() == 0 {
+		rec.Violation("C03/"+c.Kind+"/duplicate-separate-response-processed-again", fmt.Sprintf("%d separate response(s) reached the default handler although every call had received its response: %v", len(e.strayL), e.strayL), c)
+	}
+	e.strayMu.Unlock()
 	for tok, n := range p.reqSeen {
 		if n != 1 {
 			rec.Violation("C03/"+c.Kind+"/request-transmitted-more-than-once", fmt.Sprintf("token %x seen %d times on the wire without any retransmission tick", tok, n), c)
